@@ -432,10 +432,39 @@ theorem is_ip4addr_eq (s rest : Bytes) (hs : NulFree s) :
 theorem is_email_eq (s rest : Bytes) (hs : NulFree s) :
     qstrIsEmail (s ++ 0 :: rest) = .ok (isEmail s) := qstrIsEmail_correct s rest hs
 
-/-- `qstrdupf`: for every formatted text `out` (any length: the 1024-byte block is doubled until
-    it fits) the result is a block of exactly `|out| + 1` bytes holding `out` -/
+/-- K-gen obligation: the retry loop of DYNAMIC_VSPRINTF in the current `qinternal.h` is the one
+    the model runs — start size 1024 (an integer literal, hence never 0), update `_strsize *= 2`,
+    block accepted when `_n >= 0 && _n < _strsize`, and no other statement in the loop body
+    (`Generated/FmtMacro.lean` is rewritten from the source on every run). A start size that
+    depends on the format, or a computed retry size, breaks this obligation. -/
+theorem fmt_macro_as_modelled :
+    Generated.fmtStartSize = 1024 ∧ Generated.fmtGrowFactor = 2 ∧
+    Generated.fmtLoopCondText = "" ∧ Generated.fmtFitText = "_n >= 0 && _n < _strsize" ∧
+    Generated.fmtLoopBodyText = "s = (char*)malloc(_strsize); if (s == NULL) { DEBUG(\"DYNAMIC_VSPRINTF(): can't allocate memory.\"); break; } va_list _arglist; va_start(_arglist, f); int _n = vsnprintf(s, _strsize, f, _arglist); va_end(_arglist); if (_n >= 0 && _n < _strsize) break; free(s);" :=
+  ⟨rfl, rfl, rfl, rfl, rfl⟩
+
+/-- why the obligation matters, positively: for EVERY start size ≥ 1 and EVERY growth factor ≥ 2
+    the loop ends for every formatted text (of any length, the empty text included) with a block
+    that holds the text and its terminator … -/
+theorem fmt_loop_terminates (start factor : Nat) (hs : 1 ≤ start) (hf : 2 ≤ factor) (out : Bytes) :
+    ∃ (sz : Nat) (allocs : List Nat), out.length < sz ∧
+      dynVsprintf factor out (out.length + 1) start []
+        = .ok (out ++ 0 :: List.replicate (sz - (out.length + 1)) fillByte, allocs) :=
+  dynVsprintf_top start factor hs hf out
+
+/-- … and negatively: with a start size of 0 no block ever fits and the size never grows; the
+    loop does not end for any text, whatever fuel it is given -/
+theorem fmt_loop_diverges_at_zero (factor : Nat) (out : Bytes) (fuel : Nat) (allocs : List Nat) :
+    dynVsprintf factor out fuel 0 allocs = .error .outOfFuel :=
+  dynVsprintf_zero factor out fuel allocs
+
+/-- `qstrdupf` with the loop parameters of the current source: for every formatted text `out`
+    (any length, empty included) the result is a block of exactly `|out| + 1` bytes holding it -/
 theorem dupf_eq (out : Bytes) (ho : NulFree out) :
-    ∃ allocs, qstrdupf out = .ok (out ++ [0], allocs) := qstrdupf_correct out ho
+    ∃ allocs, qstrdupf out = .ok (out ++ [0], allocs) := by
+  unfold qstrdupf
+  rw [fmt_macro_as_modelled.1, fmt_macro_as_modelled.2.1]
+  exact qstrdupf_correct 1024 2 (by omega) (by omega) out ho
 
 /-- `qstrcatf(str, …)`: the old content `d` is kept and the formatted text and a terminator are
     stored right behind it — exactly `|out| + 1` bytes starting at the old terminator; this is
@@ -445,7 +474,10 @@ theorem catf_eq (d drest out : Bytes) (hd : NulFree d) (ho : NulFree out) :
     ∃ allocs, qstrcatf (d ++ 0 :: drest) out
       = if out.length ≤ drest.length
         then .ok (d ++ out ++ 0 :: drest.drop out.length, allocs)
-        else .error .oob := qstrcatf_correct d drest out hd ho
+        else .error .oob := by
+  unfold qstrcatf
+  rw [fmt_macro_as_modelled.1, fmt_macro_as_modelled.2.1]
+  exact qstrcatf_correct 1024 2 (by omega) (by omega) d drest out hd ho
 
 /-- `qstrunique` returns `qhex_encode` of a 16-byte digest: 32 lowercase hexadecimal digits,
     whatever the digest is -/
